@@ -184,14 +184,135 @@ Definition closer (open_ : string) : option string :=
   if String.eqb open_ "{" then Some "}" else if String.eqb open_ "(" then Some ")"
   else if String.eqb open_ "[" then Some "]" else None.
 
-(* dict(values): later duplicates overwrite in place *)
+(* ---- Python's dict-key discipline on observations: dict(values), _maybe_parse_container (542) ----
+   Observations of atoms are what the harness' canon_lit writes: OT "none" [], OT "bool" [OS "True"], OT "int" [OS decimal],
+   OT "float" [OS float.hex()], OT "complex" [OS real.hex(); OS imag.hex()], OT "str" [..], OT "bytes" [..]; containers
+   OT "L" / "T" / "D" / "set"; what the delegate returned for a reference / macro is OT "Ref" [..] / OT "Macro" [..]. *)
+
+(* hash(v) succeeds: lists, dicts and sets (and tuples holding one) raise TypeError *)
+Fixpoint out_hashable (v : out) {struct v} : bool :=
+  match v with
+  | OT tag l =>
+      if String.eqb tag "L" || String.eqb tag "D" || String.eqb tag "set" then false
+      else if String.eqb tag "T" then
+        (fix go (l : list out) : bool := match l with [] => true | x :: r => out_hashable x && go r end) l
+      else true
+  | _ => true
+  end.
+
+(* numbers: bool < int < float < complex compare by VALUE (True == 1 == 1.0 == (1+0j), -0.0 == 0).  A finite number
+   is m * 2^e, exactly. *)
+Inductive num := NFin (m e : Z) | NInf (neg : bool) | NNan.
+Definition digit_val (c : ascii) : option Z :=
+  let n := nat_of_ascii c in
+  if Nat.leb 48 n && Nat.leb n 57 then Some (Z.of_nat (n - 48)) else None.
+Definition hexdigit_val (c : ascii) : option Z :=
+  let n := nat_of_ascii c in
+  if Nat.leb 48 n && Nat.leb n 57 then Some (Z.of_nat (n - 48))
+  else if Nat.leb 97 n && Nat.leb n 102 then Some (Z.of_nat (n - 87)) else None.
+Fixpoint dec_acc (acc : Z) (s : string) : option Z :=
+  match s with
+  | EmptyString => Some acc
+  | String c r => match digit_val c with Some d => dec_acc (10 * acc + d) r | None => None end
+  end.
+(* str(int): an optional '-' and at least one decimal digit *)
+Definition signed_dec (s : string) : option Z :=
+  match s with
+  | String "-" (String c r) => match dec_acc 0 (String c r) with Some z => Some (- z)%Z | None => None end
+  | String "+" (String c r) => dec_acc 0 (String c r)
+  | EmptyString => None
+  | _ => dec_acc 0 s
+  end.
+(* the hex digits up to 'p': (value read as an integer, number of digits after the point), then the exponent text *)
+Fixpoint hex_mant (acc : Z) (frac : Z) (seen_point : bool) (s : string) : option (Z * Z * string) :=
+  match s with
+  | EmptyString => None
+  | String c r =>
+      if Ascii.eqb c "p" then Some (acc, frac, r)
+      else if Ascii.eqb c "." then (if seen_point then None else hex_mant acc frac true r)
+      else match hexdigit_val c with
+           | Some d => hex_mant (16 * acc + d) (if seen_point then frac + 1 else frac)%Z seen_point r
+           | None => None
+           end
+  end.
+(* float.hex(): [-]0xh.hhhhhhhhhhhhhp[+-]d, inf, -inf, nan *)
+Definition float_num (s : string) : option num :=
+  if String.eqb s "inf" then Some (NInf false) else if String.eqb s "-inf" then Some (NInf true)
+  else if String.eqb s "nan" then Some NNan else
+  let '(neg, body) := match s with String "-" r => (true, r) | _ => (false, s) end in
+  match body with
+  | String "0" (String "x" r) =>
+      match hex_mant 0 0 false r with
+      | Some (m, k, etxt) =>
+          match signed_dec etxt with
+          | Some e => Some (NFin (if neg then - m else m) (e - 4 * k))
+          | None => None
+          end
+      | None => None
+      end
+  | _ => None
+  end.
+Definition num_eqb (a b : num) : bool :=
+  match a, b with
+  | NFin m1 e1, NFin m2 e2 =>
+      let e := Z.min e1 e2 in Z.eqb (m1 * 2 ^ (e1 - e)) (m2 * 2 ^ (e2 - e))
+  | NInf x, NInf y => Bool.eqb x y
+  | NNan, NNan => true      (* one and the same object; no atom of the grammar evaluates to nan *)
+  | _, _ => false
+  end.
+(* (real, imaginary) of a numeric observation *)
+Definition out_num (v : out) : option (num * num) :=
+  match v with
+  | OT tag [OS x] =>
+      if String.eqb tag "bool" then
+        (if String.eqb x "True" then Some (NFin 1 0, NFin 0 0)
+         else if String.eqb x "False" then Some (NFin 0 0, NFin 0 0) else None)
+      else if String.eqb tag "int" then match signed_dec x with Some z => Some (NFin z 0, NFin 0 0) | None => None end
+      else if String.eqb tag "float" then match float_num x with Some n => Some (n, NFin 0 0) | None => None end
+      else None
+  | OT tag [OS x; OS y] =>
+      if String.eqb tag "complex" then
+        match float_num x, float_num y with Some a, Some b => Some (a, b) | _, _ => None end
+      else None
+  | _ => None
+  end.
+(* a and b are the same dict key (hash(a) == hash(b) and a == b): numbers by value; tuples pointwise; everything else
+   (None, str, bytes, what the delegate returned for a reference or a macro) when the observations are the same *)
+Fixpoint out_py_eqb (a b : out) {struct a} : bool :=
+  match out_num a, out_num b with
+  | Some (r1, i1), Some (r2, i2) => num_eqb r1 r2 && num_eqb i1 i2
+  | Some _, None | None, Some _ => false
+  | None, None =>
+      match a, b with
+      | OT t xs, OT u ys =>
+          if String.eqb t "T" && String.eqb u "T" then
+            (fix go (l1 l2 : list out) {struct l1} : bool :=
+               match l1, l2 with
+               | [], [] => true
+               | x :: r1, y :: r2 => out_py_eqb x y && go r1 r2
+               | _, _ => false
+               end) xs ys
+          else out_eqb a b
+      | _, _ => out_eqb a b
+      end
+  end.
+
+(* dict(values): y[k] = v per pair, in order: an equal key keeps its place (and the key already there) and takes the
+   new value; a key that cannot be hashed makes the whole construction raise TypeError *)
 Fixpoint dict_set (k v : out) (l : list (out * out)) : list (out * out) :=
   match l with
   | [] => [(k, v)]
-  | (j, w) :: r => if out_eqb k j then (j, v) :: r else (j, w) :: dict_set k v r
+  | (j, w) :: r => if out_py_eqb k j then (j, v) :: r else (j, w) :: dict_set k v r
   end.
+Definition keys_hashable (items : list (out * out)) : bool := forallb (fun kv => out_hashable (fst kv)) items.
 Definition build_dict (items : list (out * out)) : out :=
   OT "D" (map (fun kv => OL [fst kv; snd kv]) (fold_left (fun acc kv => dict_set (fst kv) (snd kv) acc) items [])).
+(* the code of the model before it followed Python's equality: keys compared as observations (1 and True apart) *)
+Fixpoint dict_set_orig (k v : out) (l : list (out * out)) : list (out * out) :=
+  match l with
+  | [] => [(k, v)]
+  | (j, w) :: r => if out_eqb k j then (j, v) :: r else (j, w) :: dict_set_orig k v r
+  end.
 
 (* parse_value (269-283) and _maybe_parse_container (478-508), _parse_dict_item (350-356),
    references (539-560) and macros (562-574) *)
@@ -254,6 +375,9 @@ Fixpoint parse_value (fuel : nat) (o : oracle) (wb : bool) (ts : list token) {st
                   match advance wb ts2 with
                   | PErr e => PErr e
                   | POk ts3 =>
+                      (* type_fn(values), after the closing bracket has been passed; dict(values) raises TypeError for a
+                         key that cannot be hashed *)
+                      if is_dict && negb (keys_hashable pairs) then PErr (EOther "TypeError") else
                       let v :=
                         if is_dict then build_dict pairs
                         else if is_tuple then
